@@ -199,6 +199,10 @@ func NewView(rec *world.Rec) *View {
 	}
 	v.Monotonic = set.Spec.PodManagementPolicy != asv1.ParallelPodManagement
 	v.Strategy = string(set.Spec.UpdateStrategy.Type)
+	if v.Strategy == "" {
+		// the type is what defaulting would fill in; the controller treats an omitted type as RollingUpdate
+		v.Strategy = "RollingUpdate"
+	}
 	if ru := set.Spec.UpdateStrategy.RollingUpdate; v.Strategy == "RollingUpdate" && ru != nil && ru.Partition != nil {
 		v.Partition, v.PartOK = int(*ru.Partition), true
 	}
